@@ -285,6 +285,120 @@ def _filter_loops(fnode):
     return hit
 
 
+def _splice_generator(loop, gnode, mapping, prelude):
+    """`for T in gen(args): BODY`, gen a generator function whose yields are plain statements `yield E`  ->  gen's body with every
+    `yield E` replaced by `T = E; BODY`.  The consumer sees the same values in the same order, interleaved with the generator's
+    own statements exactly as the generator protocol interleaves them.  Conditions (else None): BODY has no `break` (it would
+    have to stop the generator) and the loop no else clause; `continue` in BODY is allowed only when nothing follows a yield
+    within an iteration of the generator; the generator has no return with a value, no try/finally or with around a yield, and
+    does not yield inside an expression."""
+    body = [copy.deepcopy(s) for s in _strip_doc(gnode.body)]
+    body = [_Subst(mapping).visit(s) for s in body]
+    consumer = loop.body
+
+    def at_loop_level(stmts, kinds):
+        for st in stmts:
+            if isinstance(st, kinds):
+                return True
+            if isinstance(st, (ast.For, ast.While, ast.AsyncFor, ast.FunctionDef, ast.AsyncFunctionDef, ast.ClassDef)):
+                continue
+            for fld in ('body', 'orelse', 'finalbody'):
+                seq = getattr(st, fld, None)
+                if isinstance(seq, list) and seq and isinstance(seq[0], ast.stmt) and at_loop_level(seq, kinds):
+                    return True
+            if isinstance(st, ast.Try) and any(at_loop_level(h.body, kinds) for h in st.handlers):
+                return True
+        return False
+    if at_loop_level(consumer, (ast.Break,)):
+        return None
+    has_continue = at_loop_level(consumer, (ast.Continue,))
+    if any(isinstance(x, ast.Return) and x.value is not None for s_ in body for x in ast.walk(s_)):
+        return None
+    ok = [True]
+    count = [0]
+
+    def block(stmts, tail, guarded):
+        """tail: is this block the end of an iteration (nothing runs after it before the next yield or the end)?"""
+        out = []
+        for i, st in enumerate(stmts):
+            last = tail and i == len(stmts) - 1
+            if isinstance(st, ast.Expr) and isinstance(st.value, ast.Yield):
+                count[0] += 1
+                if guarded or (has_continue and not last):
+                    ok[0] = False
+                val = st.value.value if st.value.value is not None else ast.Constant(value=None)
+                asg = ast.copy_location(ast.Assign(targets=[copy.deepcopy(loop.target)], value=val), st)
+                asg._from_yield = True
+                out.append(asg)
+                for x in consumer:
+                    cp = copy.deepcopy(x)
+                    for n in ast.walk(cp):
+                        n._consumer = True
+                    out.append(cp)
+                continue
+            if any(isinstance(x, (ast.Yield, ast.YieldFrom)) for x in ast.walk(st)):
+                if isinstance(st, ast.If):
+                    st.body = block(st.body, last, guarded)
+                    st.orelse = block(st.orelse, last, guarded)
+                elif isinstance(st, (ast.For, ast.While)) and not st.orelse:
+                    # a `continue` of the consumer must land at the next iteration of this loop
+                    st.body = block(st.body, True, guarded)
+                elif isinstance(st, ast.Try) and not st.finalbody and not has_continue:
+                    st.body = block(st.body, False, guarded)
+                    st.orelse = block(st.orelse, False, guarded)
+                    for h in st.handlers:
+                        h.body = block(h.body, False, guarded)
+                else:
+                    ok[0] = False
+            out.append(st)
+        return out
+    new = block(body, False, False)
+    if not ok[0] or not count[0]:
+        return None
+    # names bound by the generator must not clash with what the consumer body uses from its own scope
+    gen_locals = _assigned_names(ast.Module(body=body, type_ignores=[])) - set(mapping)
+    used = {n.id for x in consumer for n in ast.walk(x) if isinstance(n, ast.Name)} | {n.id for n in ast.walk(loop.target) if isinstance(n, ast.Name)}
+    clash = gen_locals & used
+    if clash:
+        # the generator's own variables get other names - except the one it yields under the very name the consumer gives it
+        # (`for cid in ...: yield cid` consumed by `for cid in gen()`): that is the same value under the same name
+        tnames = {n.id for n in ast.walk(loop.target) if isinstance(n, ast.Name)}
+        same = set()
+        if isinstance(loop.target, ast.Name):
+            ys = [sub.value for x in new for sub in ast.walk(x) if isinstance(sub, ast.Assign) and getattr(sub, '_from_yield', False)]
+            if ys and all(isinstance(v, ast.Name) and v.id == loop.target.id for v in ys):
+                same.add(loop.target.id)
+        ren = {}
+        for nm in sorted(clash - same):
+            k = nm + '_g'
+            while k in used or k in gen_locals:
+                k += '_'
+            ren[nm] = k
+        marker = {id(n) for x in new for n in ast.walk(x)}
+        # rename inside the generator's statements only: the spliced consumer copies are recognised by their positions
+        def rename(stmts, inside_consumer=False):
+            for st in stmts:
+                for n in ast.walk(st):
+                    if isinstance(n, ast.Name) and n.id in ren and not getattr(n, '_consumer', False):
+                        n.id = ren[n.id]
+        for x in new:
+            for sub in ast.walk(x):
+                if isinstance(sub, ast.Assign) and getattr(sub, '_from_yield', False):
+                    for n in ast.walk(sub.targets[0]):
+                        n._consumer = True
+        rename(new)
+        if same:
+            # `cid = cid` left by a yield under the consumer's own name
+            class Drop(ast.NodeTransformer):
+                def visit_Assign(self, n):
+                    if getattr(n, '_from_yield', False) and isinstance(n.value, ast.Name) and isinstance(n.targets[0], ast.Name) \
+                            and n.value.id == n.targets[0].id:
+                        return None
+                    return n
+            new = [y for y in (Drop().visit(x) for x in new) if y is not None]
+    return list(prelude) + new
+
+
 class Inliner(object):
     def __init__(self, index):
         self.index = index
@@ -390,8 +504,15 @@ class Inliner(object):
         call = calls[0]
         kind, hnode, recv = self.helper_for(func, call, local_defs)
         self._last = hnode
-        if _has_yield(hnode) or any(isinstance(d, ast.Name) and d.id not in ('staticmethod', 'classmethod') or
-                                    not isinstance(d, ast.Name) for d in hnode.decorator_list):
+        if any(isinstance(d, ast.Name) and d.id not in ('staticmethod', 'classmethod') or
+               not isinstance(d, ast.Name) for d in hnode.decorator_list):
+            return None
+        if _has_yield(hnode):
+            # `for x in gen(...): BODY` with a new generator function: its body with BODY spliced in at every yield
+            if isinstance(st, ast.For) and st.iter is call and not st.orelse:
+                bound = self._bind(hnode, call, recv)
+                if bound is not None:
+                    return _splice_generator(st, hnode, bound[0], bound[1])
             return None
         if any(isinstance(n, ast.Call) and n is not call and self.helper_for(func, n, local_defs) and
                self.helper_for(func, n, local_defs)[1] is hnode for n in ast.walk(ast.Module(body=hnode.body, type_ignores=[]))):
